@@ -526,7 +526,7 @@ def html_plan(tier):
         ("critical", "qs", "plain", 2, 100), ("critical", "host", "plain", 2, 100),
         ("400after", "qs", "entity", 2, 400), ("400after", "host", "plain", 2, 300), ("400after", "qs", "plain", 2, 200),
         ("400after", "path", "plain", 1, 100),
-        ("400", "qs", "plain", 2, 100), ("400", "path", "plain", 2, 100), ("400", "host", "plain", 2, 100),
+        ("400", "qs", "plain", 2, 100), ("400", "path", "plain", 2, 400), ("400", "host", "plain", 2, 100),
     ]
     for kind, pos in (("critical", "path"), ("404", "qs"), ("404", "host"), ("405", "qs"), ("500", "qs"), ("500text", "qs"),
                       ("400", "qs"), ("400after", "qs"), ("500gen", "qs")):
